@@ -13,7 +13,7 @@ ANCHORS = ["pyoma2.functions.gen:merge_mode_shapes", "pyoma2.functions.gen:MSF",
 REQUIRED_MONITORS = ["merge-is-repeatable", "merge@function", "merge@PoSER.synthetic", "merge@PoSER.ssi", "stats@PoSER", "roworder@flatten"]
 ALL_STATES = ["factors:generic", "factors:+-1 only", "entries:real", "entries:complex", "rov:some setup has none",
               "refs:permuted differently per setup", "nref=1", "nref>1"]
-REQUIRED_STATES = ["factors:generic", "entries:complex", "refs:permuted differently per setup", "global shapes of magnitude < 1e-3", "result object replaced after construction"]
+REQUIRED_STATES = ["factors:generic", "entries:complex", "refs:permuted differently per setup", "global shapes of magnitude < 1e-3", "result object replaced after construction", "two modes with the same frequency"]
 RULE = ("global matrices G (1..8 modes, real/complex), 2..5 setups, 1..4 references, 0..5 roving per setup, channel lists randomly "
         "permuted per setup, factors +-[0.05,20] per setup and mode; merged result compared with c_1k*[G_ref;G_rov1;...] (rel 1e-10), "
         "row order with flatten_sns_names; PoSER statistics with statistics.pstdev; non-trivial = at least one factor ratio "
@@ -158,7 +158,16 @@ def run_synth(ctx, rng):
         if rng.random() < 0.4:
             G = G * float(10 ** rng.uniform(-5, 3))
         c = factors(rng, nset, nmodes)
-        fn_i = np.sort(rng.uniform(1, 40, nmodes))[None, :] * (1 + 0.02 * rng.standard_normal((nset, nmodes)))
+        base_f = np.sort(rng.uniform(1, 40, nmodes))
+        noise_f = 0.02 * rng.standard_normal((nset, nmodes))
+        if nmodes >= 2 and rng.random() < 0.3:
+            # a double mode (symmetric structure): equal frequencies, different shapes and damping - modes are matched by position
+            k = int(rng.integers(0, nmodes - 1))
+            base_f[k + 1] = base_f[k]
+            if rng.random() < 0.5:
+                noise_f[:, [k, k + 1]] = 0.0
+            ctx.state("two modes with the same frequency")
+        fn_i = base_f[None, :] * (1 + noise_f)
         xi_i = rng.uniform(0.005, 0.05, nmodes)[None, :] * (1 + 0.2 * rng.standard_normal((nset, nmodes)))
         truth.append((G, c, fn_i, xi_i))
     for i in range(nset):
